@@ -204,6 +204,41 @@ theorem settings_bound (i b : Int) (hi : 0 < i) (hb : 0 ≤ b)
       ts hsorted h0 t T hT
     simpa [hl.2, hB, hb0] using this
 
+/-- The shape of the code around the hook's limiter the model `hookLimiter` was written against
+(closed world over pkg/ and cmd/): it is written once, in `Hook.LoadConfig`, from
+`CreateRateLimiter(h.Config)`; it is used once, by `RateLimitWait`; no `SetLimit`/`SetBurst` anywhere. -/
+theorem load_config_shape :
+    Facts.c18LimiterUses = ["pkg/hook/hook.go:LoadConfig: h.RateLimiter = CreateRateLimiter(h.Config)",
+                            "pkg/hook/hook.go:RateLimitWait: return h.RateLimiter.Wait(ctx)"] ∧
+    Facts.c18LimiterTuners = [] := by decide
+
+/-- **C18, "for a hook configured with … settings" means every such hook**: the limiter a loaded
+hook waits on depends on its `settings` only — not on which other bindings the hook has (queued ones,
+admission or conversion webhooks), nor on how many. -/
+theorem hook_limiter_ignores_bindings (s : Option (Int × Int)) (bs bs' : List BindKind) :
+    hookLimiter { settings := s, bindings := bs } = hookLimiter { settings := s, bindings := bs' } := rfl
+
+/-- **C18 for a loaded hook**: a hook whose configuration has `settings {executionMinInterval: I,
+executionBurst: B}`, `I > 0`, `B ≥ 0` (0 meaning 1) and ANY bindings obeys the window bound;
+a hook without `settings` is never delayed, whatever its bindings. -/
+theorem hook_settings_bound (i b : Int) (hi : 0 < i) (hb : 0 ≤ b) (bs : List BindKind)
+    (ts : List Int) (hsorted : ts.Pairwise (· ≤ ·)) (h0 : ∀ u ∈ ts, 0 ≤ u) (t T : Int) (hT : 0 ≤ T) :
+    let l := hookLimiter { settings := some (i, b), bindings := bs }
+    (Spec.countIn (grants l (init l) ts) t T : Int) ≤ (if b = 0 then 1 else b) + ceilDiv T i :=
+  settings_bound i b hi hb ts hsorted h0 t T hT
+
+theorem hook_without_settings_unthrottled (bs : List BindKind) (s : LState) (ts : List Int) :
+    grants (hookLimiter { settings := none, bindings := bs }) s ts = ts :=
+  inf_never_delays _ limiter_of_settings.1 s ts
+
+/-- non-vacuity: a hook with a schedule and a validating binding, I = 10, B = 2, six requests at once:
+two start at once, the others 10 apart — and the unthrottled variant of the same hook (what a limiter
+re-tuned to `Inf` would do) breaks the bound the oracle checks. -/
+example :
+    let l := hookLimiter { settings := some (10, 2), bindings := [.schedule, .validating] }
+    grants l (init l) [0, 0, 0, 0, 0, 0] = [0, 0, 10, 20, 30, 40] ∧
+    Spec.boundOK 10 2 [0, 0, 10, 20, 30, 40] = true ∧ Spec.boundOK 10 2 [0, 0, 0, 0, 0, 0] = false := by decide
+
 /-- **The oracle decides the property.** `Spec.boundOK I B starts` (what the `oracle bound` line
 evaluates on observed start times) holds exactly when the bound holds for *every* window `(t, t+T]`,
 `T ≥ 0` — although it only looks at the windows that begin just before a start and end at a start. -/
